@@ -1361,15 +1361,26 @@ func pathCanSkip(s, h, avoid *ssa.BasicBlock) bool { return s != avoid }
 // negation, comparisons (asked of assume), and φs of materialised && / || — an incoming edge counts when the branch
 // that leads into it is not refuted by the assumption, and the φ has a value when all such edges agree on one.
 func evalAssuming(v ssa.Value, assume func(*ssa.BinOp) (bool, bool), depth int) (bool, bool) {
+	return evalAssumingLeaf(v, assume, nil, depth)
+}
+
+// evalAssumingLeaf: evalAssuming with a second assumption for boolean values that are no comparisons (a flag read from a
+// field, say).
+func evalAssumingLeaf(v ssa.Value, assume func(*ssa.BinOp) (bool, bool), leaf func(ssa.Value) (bool, bool), depth int) (bool, bool) {
 	if v == nil || depth > 8 {
 		return false, false
+	}
+	if leaf != nil {
+		if b, ok := leaf(v); ok {
+			return b, true
+		}
 	}
 	switch x := v.(type) {
 	case *ssa.Const:
 		return an.ConstBool(x)
 	case *ssa.UnOp:
 		if x.Op == token.NOT {
-			b, ok := evalAssuming(x.X, assume, depth+1)
+			b, ok := evalAssumingLeaf(x.X, assume, leaf, depth+1)
 			return !b, ok
 		}
 	case *ssa.BinOp:
@@ -1379,7 +1390,7 @@ func evalAssuming(v ssa.Value, assume func(*ssa.BinOp) (bool, bool), depth int) 
 		for i, e := range x.Edges {
 			pred := x.Block().Preds[i]
 			if ifi := an.BlockIf(pred); ifi != nil {
-				if c, known := evalAssuming(ifi.Cond, assume, depth+1); known {
+				if c, known := evalAssumingLeaf(ifi.Cond, assume, leaf, depth+1); known {
 					takesTrue := pred.Succs[0] == x.Block()
 					takesFalse := len(pred.Succs) > 1 && pred.Succs[1] == x.Block()
 					if (c && !takesTrue) || (!c && !takesFalse) {
@@ -1387,7 +1398,7 @@ func evalAssuming(v ssa.Value, assume func(*ssa.BinOp) (bool, bool), depth int) 
 					}
 				}
 			}
-			b, ok := evalAssuming(e, assume, depth+1)
+			b, ok := evalAssumingLeaf(e, assume, leaf, depth+1)
 			if !ok {
 				return false, false
 			}
